@@ -124,3 +124,19 @@ def read_column(frame, key):
             return None
         t = t[1]
     return ("col", strip_ids(t), key)
+
+
+def dict_entries(t):
+    """a dictionary built over a domain, in either spelling: {k(a): v(a) for a in D}  or  d = {}; for a in D: d[k(a)] = v(a)
+    -> [(key template, value template, domain)] with ids stripped, or None"""
+    if not isinstance(t, tuple) or not t:
+        return None
+    if t[0] == "comp" and t[1] == "dict" and len(t[3]) == 1 and not t[3][0][2] and t[2][0] == "tuple" and len(t[2][1]) == 2:
+        return [(strip_ids(t[2][1][0]), strip_ids(t[2][1][1]), strip_ids(t[3][0][1]))]
+    if t[0] == "loopout" and t[3] in (("dict", ()), ("call", ("global", "dict"), (), ())):
+        out, body = [], t[4]
+        while body[0] == "setitem":
+            out.append((strip_ids(body[2]), strip_ids(body[3]), strip_ids(t[5])))
+            body = body[1]
+        return out if body[0] == "loopin" and out else None
+    return None
